@@ -36,7 +36,7 @@ def budget(tier):
 @st.composite
 def shaped(draw, tier):
     spec = draw(tl.timeline_spec(tier, allow_modes=True))
-    shape = draw(st.sampled_from(["plain", "plain", "plain", "single", "same", "tiny", "tiny", "edge", "edge", "century"]))
+    shape = draw(st.sampled_from(["plain", "plain", "plain", "single", "same", "tiny", "tiny", "edge", "edge", "century", "leap-years"]))
     kind = spec["kind"]
     data = spec["data"]
     if shape == "single":
@@ -68,15 +68,19 @@ def shaped(draw, tier):
         for d in data:
             t = dtm.datetime(draw(st.integers(1900, 2200)), draw(st.integers(1, 12)), draw(st.sampled_from([1, 15, 28])))
             d["time"] = tg.iso(t) if kind == "datetime" else t.date().isoformat()
-        if draw(st.booleans()):
-            # the latest (or earliest) datum on a leap day, with a time of day
-            ly = draw(st.sampled_from([1904, 1996, 2000, 2024, 2096, 2196]))
-            t = dtm.datetime(ly, 2, 29, draw(st.sampled_from([0, 8, 23])), draw(st.sampled_from([0, 30])))
-            if draw(st.booleans()):
-                ly0 = min(int(d["time"][:4]) for d in data)
-                ly = max(y for y in (1904, 1996, 2000, 2024, 2096, 2196) if True)
-                t = t.replace(year=2196)
-            data[draw(st.integers(0, len(data) - 1))]["time"] = tg.iso(t) if kind == "datetime" else t.date().isoformat()
+        spec["domain"] = None
+    elif shape == "leap-years" and kind in ("datetime", "date"):
+        # several years of data whose first or last datum falls on a 29 February, with a time of day
+        ly = draw(st.sampled_from([1904, 1952, 1996, 2000, 2024, 2096, 2196]))
+        leap = dtm.datetime(ly, 2, 29, draw(st.sampled_from([0, 8, 12, 23])), draw(st.sampled_from([0, 30, 59])))
+        years = draw(st.integers(2, 60))
+        last = draw(st.booleans())
+        for d in data:
+            off = draw(st.integers(1, years * 365))
+            t = leap - timedelta(days=off) if last else leap + timedelta(days=off)
+            t = min(max(t, dtm.datetime(1900, 1, 1)), dtm.datetime(2200, 12, 31))
+            d["time"] = tg.iso(t) if kind == "datetime" else t.date().isoformat()
+        data[draw(st.integers(0, len(data) - 1))]["time"] = tg.iso(leap) if kind == "datetime" else leap.date().isoformat()
         spec["domain"] = None
     return spec
 
